@@ -84,7 +84,7 @@ def emptyBackoff : C32.State :=
 
 def init (c : Cfg) (hb slack : Nat) : State :=
   { cfg := c, peers := fun _ => none, explicit := [], mesh := fun _ => none, fanout := fun _ => none,
-    backoff := (C32.new instantLimit (c.pruneBackoff * sec) hb slack).getD emptyBackoff,
+    backoff := (C32.new instantLimit (sec * c.pruneBackoff) hb slack).getD emptyBackoff,
     ticks := 0, belief := fun _ _ => false }
 
 def setF {α : Type} (f : Nat → Option α) (k : Nat) (v : Option α) : Nat → Option α :=
@@ -183,7 +183,7 @@ def backedOffSlack (s : State) (t p : Nat) : Bool := C32.isBackoffWithSlack s.ba
 def backedOffNow (s : State) (t p now : Nat) : Bool := C32.penalisesGraft s.backoff (t, p) now
 
 def updateBackoff (s : State) (now t p secs : Nat) : State :=
-  { s with backoff := C32.update s.backoff now (t, p) (secs * sec) }
+  { s with backoff := C32.update s.backoff now (t, p) (sec * secs) }
 
 def setTopics (s : State) (p : Nat) (f : List Nat → List Nat) : State :=
   match s.peers p with
@@ -333,19 +333,25 @@ def addedCalls (s : State) (t : Nat) : List Nat → List Notif
   | [] => []
   | p :: rest => peerAdded s p [t] ++ addedCalls s t rest
 
+/-- `join`: not explicit, score not negative, not backed off (with slack) -/
+def joinOk (s : State) (sc : Nat → Int) (t p : Nat) : Bool :=
+  !s.explicit.contains p && !(decide (sc p < 0)) && !backedOffSlack s t p
+
+/-- `join`: fanout peers first (BTreeSet order), up to `mesh_n` -/
+def joinFromFan (s : State) (sc : Nat → Int) (t : Nat) : List Nat :=
+  match s.fanout t with
+  | some f => ((sortNat f).filter (joinOk s sc t)).take s.cfg.meshN
+  | none => []
+
 /-- `subscribe` → `join`; `final` = the topic's mesh the implementation ended with (oracle) -/
 def subscribe (s : State) (sc : Nat → Int) (t : Nat) (final : List Nat) : State × Out :=
   match s.mesh t with
   | some _ => (s, {})                     -- already subscribed
   | none =>
-    let ok (p : Nat) : Bool := !s.explicit.contains p && !(decide (sc p < 0)) && !backedOffSlack s t p
-    -- fanout peers first (BTreeSet order), up to mesh_n
-    let fromFan := match s.fanout t with
-      | some f => ((sortNat f).filter ok).take s.cfg.meshN
-      | none => []
+    let fromFan := joinFromFan s sc t
     let s1 := { s with fanout := setF s.fanout t none }
     if fromFan.length < s.cfg.meshN then
-      let pool := poolOf s t (fun p _ => !fromFan.contains p && ok p)
+      let pool := poolOf s t (fun p _ => !fromFan.contains p && joinOk s sc t p)
       let pick := final.filter (fun p => !fromFan.contains p)
       if validChoice pick pool (s.cfg.meshN - fromFan.length) then
         let added := fromFan ++ pick
@@ -433,6 +439,30 @@ structure HbTopic where
 def hbOk (s : State) (t : Nat) (cur : List Nat) (p : Nat) : Bool :=
   !cur.contains p && !s.explicit.contains p && !backedOffSlack s t p
 
+/-- the "too many peers" step -/
+def removalOk (s : State) (removed m1 : List Nat) : Bool :=
+  if m1.length ≥ s.cfg.meshHigh then validRemoval s removed m1 (m1.length - s.cfg.meshN) else removed.isEmpty
+
+/-- one grafting step: when its condition holds the choice is a valid sample, otherwise nothing is chosen -/
+def stepOk (cond : Bool) (choice pool : List Nat) (need : Nat) : Bool :=
+  if cond then validChoice choice pool need else choice.isEmpty
+
+/-- "too little peers" pool -/
+def pool1 (s : State) (sc : Nat → Int) (t : Nat) (cur : List Nat) : List Nat :=
+  poolOf s t (fun p _ => hbOk s t cur p && decide (sc p ≥ 0))
+
+/-- "not enough outbound peers" pool -/
+def pool2 (s : State) (sc : Nat → Int) (t : Nat) (cur : List Nat) : List Nat :=
+  poolOf s t (fun p pd => hbOk s t cur p && decide (sc p ≥ 0) && pd.outbound)
+
+/-- opportunistic grafting pool: score above the median -/
+def pool3 (s : State) (sc : Nat → Int) (t : Nat) (cur : List Nat) : List Nat :=
+  poolOf s t (fun p _ => hbOk s t cur p && decide (2 * sc p > median2 sc cur))
+
+/-- does opportunistic grafting run for a mesh `cur`? -/
+def oppCond (s : State) (sc : Nat → Int) (cur : List Nat) : Bool :=
+  s.ticks % s.cfg.oppTicks == 0 && decide (cur.length > 1) && s.cfg.scoring && decide (median2 sc cur < s.cfg.oppThr2)
+
 /-- mesh maintenance of one topic given the decomposition `(a1, a2, a3)` of the added peers and the
 peers `removed` as excess; `none` = not an admissible run -/
 def hbTry (s : State) (sc : Nat → Int) (t : Nat) (m removed : List Nat) (a : List Nat × List Nat × List Nat) :
@@ -442,24 +472,17 @@ def hbTry (s : State) (sc : Nat → Int) (t : Nat) (m removed : List Nat) (a : L
   let m0 := m.filter (fun p => !(decide (sc p < 0)))
   let neg := m.filter (fun p => decide (sc p < 0))
   -- too little peers
-  let ok1 := if m0.length < c.meshLow then
-      validChoice a.1 (poolOf s t (fun p _ => hbOk s t m0 p && decide (sc p ≥ 0))) (c.meshN - m0.length)
-    else a.1.isEmpty
+  let ok1 := stepOk (decide (m0.length < c.meshLow)) a.1 (pool1 s sc t m0) (c.meshN - m0.length)
   let m1 := m0 ++ a.1
   -- too many peers
-  let ok2 := if m1.length ≥ c.meshHigh then validRemoval s removed m1 (m1.length - c.meshN) else removed.isEmpty
+  let ok2 := removalOk s removed m1
   let m2 := m1.filter (fun p => !removed.contains p)
   -- enough outbound peers?
-  let ok3 := if m2.length ≥ c.meshLow && decide (outboundCount s m2 < c.outMin) then
-      validChoice a.2.1 (poolOf s t (fun p pd => hbOk s t m2 p && decide (sc p ≥ 0) && pd.outbound))
-        (c.outMin - outboundCount s m2)
-    else a.2.1.isEmpty
+  let ok3 := stepOk (decide (m2.length ≥ c.meshLow) && decide (outboundCount s m2 < c.outMin)) a.2.1
+      (pool2 s sc t m2) (c.outMin - outboundCount s m2)
   let m3 := m2 ++ a.2.1
   -- opportunistic grafting
-  let ok4 := if s.ticks % c.oppTicks == 0 && decide (m3.length > 1) && c.scoring
-      && decide (median2 sc m3 < c.oppThr2) then
-      validChoice a.2.2 (poolOf s t (fun p _ => hbOk s t m3 p && decide (2 * sc p > median2 sc m3))) c.oppPeers
-    else a.2.2.isEmpty
+  let ok4 := stepOk (oppCond s sc m3) a.2.2 (pool3 s sc t m3) c.oppPeers
   if ok1 && ok2 && ok3 && ok4 then
     some { mesh := m3 ++ a.2.2, graft := a.1 ++ a.2.1 ++ a.2.2, prune := neg ++ removed }
   else none
